@@ -393,6 +393,8 @@ class OfxgetWorld:
                 if opt in E and not (opt == "clientuid" and null(E[opt])):
                     if not null(E[opt]) or isinstance(E[opt], bool):
                         self.user_model[opt] = E[opt]
+                    else:
+                        self.user_model.pop(opt, None)      # next run must yield null: nothing may set it
             # L5: one generated default CLIENTUID across runs
             section_uid = self.user_model.get("clientuid")
             if null(section_uid):
